@@ -18,7 +18,8 @@ LEVEL_NOTE = ("Trusted: Lean kernel; harness; compress/gzip, xz, bufio, the file
               "the multi-Phylip stream and auto-detection are open (models + correspondence only): see evidence 'partial'.")
 TECHNIQUE = "Lean 4 proof (induction over rows / chunks for every width) + differential correspondence"
 LEAN_MODULES = ["Gv.Props.C02"]
-REQUIRED_THEOREMS = ["Gv.Props.C02." + n for n in ["roundtrip_fasta", "roundtrip_fasta_go", "roundtrip_stockholm", "roundtrip_nexus_counterexample"]]
+REQUIRED_THEOREMS = ["Gv.Props.C02." + n for n in ["roundtrip_fasta", "roundtrip_fasta_go", "roundtrip_stockholm",
+                                                     "roundtrip_nexus_counterexample", "roundtrip_nexus_patched_witness"]]
 TRUSTED = ["compress/gzip, github.com/ulikunitz/xz, bufio, os (temp files): .gz/.xz round trips are observed, not modelled",
            "version.Version of the harness build is the literal 'Unset' (Clustal header line)"]
 ASSUMPTIONS = ["the property's residue alphabet: IUPAC nucleotide codes ACGTU RYSWKM BDHV N or the 20 amino acids + B Z X, "
